@@ -17,7 +17,7 @@ func init() {
 			"the two existence predicates of the start-up recovery pass recognise both the temporary and the final name of a logged file; NOT decided: that rewriting loses, duplicates or reorders no row (value-level), planner optimality.",
 		Assumptions: commonAssumptions,
 		Technique:   "static analysis: must-precede / never-after / post-dominance cuts on go/cfg, lockset dataflow, who-may-call tables",
-		Rules:       "C03.R1 R1b R2 R3 R4 R5 R6 R7 R8",
+		Rules:       "C03.R1 R1b R2 R3 R4 R5 R6 R7 R8 R9",
 	}
 }
 
@@ -292,6 +292,56 @@ func c03(c *an.Ctx) {
 		allowed := an.Allowed{I + ":(*ColumnIterator).NextChunkMeta": "refresh on advance"}
 		c.WhoWrites(r, sidF, "ColumnIterator.sid", allowed, nil)
 		c.WhoWrites(r, minF, "ColumnIterator.minTime", allowed, nil)
+	}
+	// ---------------------------------------------------------------- R9
+	{
+		// matchOrderFiles picks the ordered files an out-of-order merge rewrites: from the first file that
+		// overlaps (or lies behind) the out-of-order range to the END of the list — whole-file ranges are
+		// not monotone in sequence, a later file can hold older rows of another series.  And the merged
+		// out-of-order files are dropped OLDEST FIRST: after a crash in between, the survivors still hold the
+		// newest value of every point, so the re-merge is idempotent.
+		r := c.Rule("C03.R9", "K-LOOPSELECT", I+": matchOrderFiles takes every ordered file from the first match to the end (no break, no skip once a file was taken); deleteUnorderedFiles drops the merged files in list order (oldest first)")
+		if f := fn(r, I+":MmsTables.matchOrderFiles"); f != nil {
+			add := f.Find(an.MNode("ctx.order.add(f) inside the loop", func(g *an.Fn, m ast.Node) bool {
+				ce, ok := m.(*ast.CallExpr)
+				if !ok {
+					return false
+				}
+				sel, ok := ce.Fun.(*ast.SelectorExpr)
+				return ok && sel.Sel.Name == "add" && strings.HasSuffix(g.Canon(sel.X), ".order") && g.LoopBodyEntry(an.Site{V: g.VertexOf(ce), Node: ce}) >= 0
+			}))
+			r.AddSites(add.Len())
+			if add.Len() == 0 {
+				r.Fail(f.Name+": selection", c.P.Pos(f.Body.Pos()), "matchOrderFiles no longer adds files inside its scan")
+			} else {
+				f.LoopNoBreak(r, add.List[0], "the scan of the ordered files is never left early")
+				f.LoopSelectsAll(r, add, "once a file was taken every later file is taken",
+					an.AtomLike(`^0<p0\.order\.Len\(\)$`, false), an.AtomLike(`(^nil==|==nil$)`, false), an.AtomLike(`^recv\.isClosed\(\)$`, true))
+			}
+		}
+		if f := fn(r, I+":MmsTables.deleteUnorderedFiles"); f != nil {
+			rm := f.Find(call(r, I+":MmsTables.removeFile"))
+			r.AddSites(rm.Len())
+			for _, s := range rm.List {
+				var loop ast.Node
+				for p := f.Parent(s.Node); p != nil; p = f.Parent(p) {
+					if _, ok := p.(*ast.RangeStmt); ok {
+						loop = p
+						break
+					}
+					if fs, ok := p.(*ast.ForStmt); ok {
+						loop = p
+						if inc, ok := fs.Post.(*ast.IncDecStmt); ok && inc.Tok.String() == "--" {
+							r.Fail(f.Name+": newest first", c.P.Pos(fs.Pos()), "deleteUnorderedFiles walks the merged out-of-order files from the tail: after a crash between two deletions only OLDER files survive, and their re-merge overwrites newer values")
+						}
+						break
+					}
+				}
+				if loop == nil {
+					r.Fail(f.Name+": loop", c.P.Pos(s.Node.Pos()), "the removal of merged out-of-order files is no longer a loop over the file list")
+				}
+			}
+		}
 	}
 	// ---------------------------------------------------------------- R5
 	{
